@@ -589,7 +589,16 @@ def to_qref(node, R: Rendered):
     if node["local_variables"]:
         d["local_variables"] = {v: str(R.s(t)) for v, t in node["local_variables"]}
     if node["linked_params"]:
-        d["linked_params"] = [{"source": s, "targets": [f"{p}.{q}" for p, q in ts]} for s, ts in node["linked_params"]]
+        lks = []
+        for i, (s, ts) in enumerate(node["linked_params"]):
+            tg = [f"{p}.{q}" for p, q in ts]
+            # a document may list several links with the same source (a shape QREF accepts): split one now and then
+            if len(tg) >= 2 and (len(node["name"]) + i + len(tg)) % 5 == 0:
+                lks.append({"source": s, "targets": tg[:1]})
+                lks.append({"source": s, "targets": tg[1:]})
+            else:
+                lks.append({"source": s, "targets": tg})
+        d["linked_params"] = lks
     if node["ports"]:
         d["ports"] = [{"name": p["name"], "direction": p["direction"], "size": None if p["size"] is None else R.s(p["size"])}
                       for p in node["ports"]]
